@@ -16,8 +16,15 @@ Traces == JsonDeserialize(IOEnv.TRACE_FILE)
 VARIABLES tid, l, sc, events, lock, res, pc, now, cutoff, op, cost, i
 Threads == 1..NThreads
 
-Scn(n) == LET j == Traces[n].sc IN
-          [cfg |-> [max |-> j.cfg.max, W |-> j.cfg.W], init |-> j.init, clock |-> j.clock, prog |-> j.prog]
+\* the deque the concurrent phase starts from: the sequential setup operations applied to the
+\* budget model (nothing is read from the implementation's private attributes)
+UM == INSTANCE Budget
+RECURSIVE After(_, _, _, _)
+After(c, q, ops, n) ==
+    IF n > Len(ops) THEN q ELSE After(c, UM!UApply(c, q, ops[n].op, ops[n].cost, ops[n].t).q, ops, n + 1)
+Scn(n) == LET j == Traces[n].sc
+              c == [max |-> j.cfg.max, W |-> j.cfg.W]
+          IN  [cfg |-> c, init |-> After(c, UM!UInit, j.setup, 1), clock |-> j.clock, prog |-> j.prog]
 
 BT == INSTANCE BudgetThreads WITH Scenarios <- {Scn(n) : n \in 1..NTraces}, Locked <- TRUE
 
